@@ -468,3 +468,10 @@ class Tagged(Shape):
             if len(ids) < len(self.recs):
                 present[k] = z3.Or(*[tag == i for i in ids]) if len(ids) > 1 else tag == ids[0]
         return SRec(fields, 'tagged', tag, present)
+
+
+class SameAs(Shape):
+    """a parameter that is the object reached from another parameter (self is cu.dwarfinfo)"""
+
+    def __init__(self, path):
+        self.path = path
